@@ -64,28 +64,33 @@ def run(ctx):
     for sc in scs:
         for drv in ("parfile", "parblock"):
             for w in ((1, 2, 4, 16, 64) if quick else (1, 2, 3, 4, 8, 16, 32, 64)):
-                for rep in range(2 if quick else 5):
-                    plan = None if rep == 0 else ["delay=%d:%d" % (rnd.randint(1, 10 ** 6), rnd.choice([100, 800, 3000]))]
-                    jobs.append((sc, drv, w, plan, rep))
+                for rep in range(3 if quick else 7):
+                    plan = None if rep != 1 else ["delay=%d:%d" % (rnd.randint(1, 10 ** 6), rnd.choice([100, 800, 3000]))]
+                    # schedule perturbation from outside: strace holds threads at the exit/entry of chosen system calls
+                    inj = None
+                    if rep >= 2:
+                        sysc = rnd.choice(["copy_file_range", "openat", "ftruncate", "fchmod", "close", "symlink", "mkdir", "utimensat", "futex"])
+                        inj = ["%s:%s=%d:when=%d+%d" % (sysc, rnd.choice(["delay_exit", "delay_enter"]), rnd.choice([200, 2000, 15000]), rnd.randint(1, 4), rnd.randint(1, 3))]
+                    jobs.append((sc, drv, w, plan, rep, inj))
     def one(j):
-        sc, drv, w, plan, rep = j
+        sc, drv, w, plan, rep, inj = j
         rid = "c06-%s-%s-w%d-r%d" % (sc["id"], drv, w, rep)
-        return evplane.traced_tree_run(binary, sc, drv, rid, {"fsync": "--fsync" in sc["extra"], "reflink": "auto"}, plan=plan, workers=w)
+        return evplane.traced_tree_run(binary, sc, drv, rid, {"fsync": "--fsync" in sc["extra"], "reflink": "auto"}, plan=plan, workers=w, inject=inj)
     res = runner.pmap(one, jobs)
     verdicts, st = evplane.judge([r[1] for r in res], len(res))
     ctx.states += st["distinct"]; ctx.transitions += st["generated"]
     ctx.tlc_jobs.append({"job": "Trace_Ev verdicts", "runs": len(res), "events": st["events"], "wall_s": round(st["wall"], 2)})
     # determinism across runs: TLC compares the outcome records of all runs of one scenario (Trace_Det)
     groups = {}
-    for (sc, drv, w, plan, rep), (o, recs, n), v in zip(jobs, res, verdicts):
+    for (sc, drv, w, plan, rep, inj), (o, recs, n), v in zip(jobs, res, verdicts):
         ctx.traces += 1
         multi = any(len(e.get("meta", {}).get("data", b"")) > int(sc["extra"][1]) for e in sc["fs0"])
         ctx.case((sc["id"], drv, w, rep), multi and w >= 2)
         groups.setdefault(sc["id"], []).append({"run": "%s/w%d/r%d" % (drv, w, rep), "exit": o["exit"], "view": view(o["after"])})
         for c in v["viol"]:
             if c in ("C06",):
-                ctx.violation("C06: %s (%s, workers=%d, plan=%s): metadata applied before the last write (or a write after metadata)" % (sc["id"], drv, w, plan),
-                              {"kind": "c06-order", "scenario": sc["id"], "driver": drv, "workers": w, "plan": plan, "verdict": v},
+                ctx.violation("C06: %s (%s, workers=%d, plan=%s): metadata applied before the last write (or a write after metadata)" % (sc["id"], drv, w, plan or inj),
+                              {"kind": "c06-order", "scenario": sc["id"], "driver": drv, "workers": w, "plan": plan, "inject": inj, "verdict": v},
                               sig={"scenario": sc["id"], "driver": drv, "kind": "order"})
             else:
                 ctx.other.append({"clause": c, "id": sc["id"], "driver": drv})
